@@ -98,11 +98,14 @@ def facts_dir(config):
         out = os.path.join(WORK, "facts", config, key)
         stamp = os.path.join(out, "OK")
         if os.path.exists(stamp):
+            os.utime(out, None)
             return out, {"cached": True, "tree_key": key, "source_files_hashed": nfiles}
         # prune older keys of this config (disk)
         cfgdir = os.path.join(WORK, "facts", config)
         if os.path.isdir(cfgdir):
-            for d in os.listdir(cfgdir):
+            # keep the two most recently used keys (the reference tree is usually one of them), drop the rest
+            old = sorted(os.listdir(cfgdir), key=lambda d: os.path.getmtime(os.path.join(cfgdir, d)), reverse=True)
+            for d in old[2:]:
                 shutil.rmtree(os.path.join(cfgdir, d), ignore_errors=True)
         os.makedirs(out, exist_ok=True)
         args, rflags, cwd, crates = CONFIGS[config]
